@@ -12,7 +12,7 @@ use crate::ctx::{Ctx, Rng};
 use crate::util;
 use serde::{Deserialize, Serialize};
 use serde_json::json;
-use serde_saphyr::{ArcAnchor, ArcWeakAnchor, RcAnchor, RcRecursion, RcRecursive, RcWeakAnchor};
+use serde_saphyr::{ArcAnchor, ArcRecursion, ArcRecursive, ArcWeakAnchor, RcAnchor, RcRecursion, RcRecursive, RcWeakAnchor};
 use std::collections::BTreeMap;
 use std::rc::Rc;
 use std::sync::Arc;
@@ -305,6 +305,106 @@ pub fn run(ctx: &mut Ctx) {
         }
     }
 
+    // ---- shared scalars (the alias replays a single event) in sequences, with weak edges to them
+    for round in 0..(if quick { 60 } else { 900 }) {
+        #[derive(Serialize, Deserialize, Debug)]
+        struct Scalars {
+            strs: Vec<RcAnchor<String>>,
+            nums: Vec<ArcAnchor<u32>>,
+            weak: Vec<RcWeakAnchor<String>>,
+        }
+        let pool_s: Vec<Rc<String>> = (0..(1 + round % 3)).map(|i| Rc::new(format!("s{i}"))).collect();
+        let pool_n: Vec<Arc<u32>> = (0..(1 + round % 3)).map(|i| Arc::new(i as u32 * 7)).collect();
+        let si: Vec<usize> = (0..(1 + rng.below(5))).map(|_| rng.below(pool_s.len())).collect();
+        let ni: Vec<usize> = (0..(1 + rng.below(5))).map(|_| rng.below(pool_n.len())).collect();
+        let wi: Vec<usize> = (0..rng.below(3)).map(|_| si[rng.below(si.len())]).collect();
+        let doc = Scalars {
+            strs: si.iter().map(|&i| RcAnchor(pool_s[i].clone())).collect(),
+            nums: ni.iter().map(|&i| ArcAnchor(pool_n[i].clone())).collect(),
+            weak: wi.iter().map(|&i| RcWeakAnchor::from(&pool_s[i])).collect(),
+        };
+        ctx.direct_evaluations += 1;
+        let text = serde_saphyr::to_string(&doc).unwrap_or_default();
+        match serde_saphyr::from_str::<Scalars>(&text) {
+            Ok(back) => {
+                let a: Vec<usize> = back.strs.iter().map(|x| Rc::as_ptr(&x.0) as usize).collect();
+                let b: Vec<usize> = back.nums.iter().map(|x| Arc::as_ptr(&x.0) as usize).collect();
+                let weak_ok = wi.iter().enumerate().all(|(k, &i)| {
+                    let first = si.iter().position(|&j| j == i).unwrap();
+                    back.weak[k].upgrade().is_some_and(|u| Rc::ptr_eq(&u, &back.strs[first].0))
+                });
+                if classes(&a) != classes(&si) || classes(&b) != classes(&ni) || !weak_ok {
+                    ctx.fail("sharing-differs", format!("shared scalars: strings {:?} -> {:?}, numbers {:?} -> {:?}, weak edges intact: {weak_ok}; text {text:?}", classes(&si), classes(&a), classes(&ni), classes(&b)), json!({"kind": "scalars", "text": text}));
+                }
+            }
+            Err(e) => ctx.fail("round-trip-failed", format!("shared scalars {text:?}: {}", e.to_string().lines().next().unwrap_or("")), json!({"kind": "scalars", "text": text})),
+        }
+    }
+
+    // ---- back-references across two levels through the recursive wrappers, Rc and Arc
+    {
+        #[derive(Serialize, Deserialize)]
+        struct RNode {
+            name: String,
+            up: RcRecursion<RNode>,
+            kids: Vec<RcRecursive<RNode>>,
+        }
+        #[derive(Serialize, Deserialize)]
+        struct ANode2 {
+            name: String,
+            up: ArcRecursion<ANode2>,
+            kids: Vec<ArcRecursive<ANode2>>,
+        }
+        ctx.direct_evaluations += 2;
+        // Rc
+        let root: RcRecursive<RNode> = RcRecursive(Rc::new(std::cell::RefCell::new(None)));
+        let kid = RcRecursive::wrapping(RNode { name: "kid".into(), up: RcRecursion::from(&root), kids: vec![] });
+        *root.0.borrow_mut() = Some(RNode { name: "root".into(), up: RcRecursion::from(&root), kids: vec![RcRecursive(kid.0.clone())] });
+        let text = serde_saphyr::to_string(&root).unwrap_or_default();
+        match serde_saphyr::from_str::<RcRecursive<RNode>>(&text) {
+            Ok(back) => {
+                let ok = (|| {
+                    let g = back.0.borrow();
+                    let n = g.as_ref()?;
+                    let self_ok = Rc::ptr_eq(&n.up.upgrade()?.0, &back.0);
+                    let k = n.kids.first()?;
+                    let kg = k.0.borrow();
+                    let up = kg.as_ref()?.up.upgrade()?;
+                    Some(self_ok && Rc::ptr_eq(&up.0, &back.0) && !Rc::ptr_eq(&k.0, &back.0))
+                })();
+                if ok != Some(true) {
+                    ctx.fail("cycle-not-restored", format!("Rc two-level back-reference is not restored; text {text:?}"), json!({"kind": "ring2", "text": text}));
+                }
+            }
+            Err(e) => ctx.fail("round-trip-failed", format!("Rc two-level ring {text:?}: {}", e.to_string().lines().next().unwrap_or("")), json!({"kind": "ring2", "text": text})),
+        }
+        // Arc
+        let root: ArcRecursive<ANode2> = ArcRecursive(Arc::new(std::sync::Mutex::new(None)));
+        let kid = ArcRecursive::wrapping(ANode2 { name: "kid".into(), up: ArcRecursion::from(&root), kids: vec![] });
+        *root.0.lock().unwrap() = Some(ANode2 { name: "root".into(), up: ArcRecursion::from(&root), kids: vec![ArcRecursive(kid.0.clone())] });
+        let text = serde_saphyr::to_string(&root).unwrap_or_default();
+        match serde_saphyr::from_str::<ArcRecursive<ANode2>>(&text) {
+            Ok(back) => {
+                let ok = (|| {
+                    let (self_ok, k) = {
+                        let g = back.0.lock().ok()?;
+                        let n = g.as_ref()?;
+                        (Arc::ptr_eq(&n.up.upgrade()?.0, &back.0), ArcRecursive(n.kids.first()?.0.clone()))
+                    };
+                    let up = {
+                        let kg = k.0.lock().ok()?;
+                        kg.as_ref()?.up.upgrade()?
+                    };
+                    Some(self_ok && Arc::ptr_eq(&up.0, &back.0) && !Arc::ptr_eq(&k.0, &back.0))
+                })();
+                if ok != Some(true) {
+                    ctx.fail("cycle-not-restored", format!("Arc two-level back-reference is not restored; text {text:?}"), json!({"kind": "ring2", "text": text}));
+                }
+            }
+            Err(e) => ctx.fail("round-trip-failed", format!("Arc two-level ring {text:?}: {}", e.to_string().lines().next().unwrap_or("")), json!({"kind": "ring2", "text": text})),
+        }
+    }
+
     // ---- aliases read into plain fields: equal, independent copies
     {
         ctx.direct_evaluations += 1;
@@ -315,6 +415,28 @@ pub fn run(ctx: &mut Ctx) {
         match serde_saphyr::from_str::<PlainLeaves>(&text) {
             Ok(p) if p.a == p.b && p.c == p.d && p.a.name == "shared" && p.c.name == "shared-arc" => {}
             other => ctx.fail("alias-into-plain-field", format!("{text:?} read into plain fields gives {other:?}"), json!({"kind": "plain", "text": text})),
+        }
+    }
+    // shared containers as struct field values after a block-valued sibling
+    {
+        #[derive(Serialize, Deserialize, Debug)]
+        struct Fields {
+            first: Vec<i32>,
+            shared: RcAnchor<Vec<i32>>,
+            again: RcAnchor<Vec<i32>>,
+            m: BTreeMap<String, i32>,
+            shared_map: RcAnchor<BTreeMap<String, i32>>,
+            again_map: RcAnchor<BTreeMap<String, i32>>,
+        }
+        ctx.direct_evaluations += 1;
+        let v = Rc::new(vec![10, 20]);
+        let m = Rc::new(BTreeMap::from([("k".to_string(), 1)]));
+        let doc = Fields { first: vec![1, 2], shared: RcAnchor(v.clone()), again: RcAnchor(v), m: BTreeMap::from([("z".to_string(), 0)]), shared_map: RcAnchor(m.clone()), again_map: RcAnchor(m) };
+        let text = serde_saphyr::to_string(&doc).unwrap_or_default();
+        match serde_saphyr::from_str::<Fields>(&text) {
+            Ok(b) if Rc::ptr_eq(&b.shared.0, &b.again.0) && Rc::ptr_eq(&b.shared_map.0, &b.again_map.0) && *b.shared.0 == vec![10, 20] => {}
+            Ok(_) => ctx.fail("sharing-differs", format!("shared field values after a block sibling; text {text:?}"), json!({"kind": "fields", "text": text})),
+            Err(e) => ctx.fail("round-trip-failed", format!("shared field values {text:?}: {}", e.to_string().lines().next().unwrap_or("")), json!({"kind": "fields", "text": text})),
         }
     }
     // F13 witness: an anchored sequence of anchored strings without anchors of their own
